@@ -91,6 +91,13 @@ KANI_META.update({
     'k_stat_monomorphic_2d': K('bounded', 'shapes [3,3], [2,4]; monomorphic cells over all f64 bit patterns', ['PiXY', 'King', 'R0', 'R1', 'Scs::segregating_sites']),
     'k_stat_s_sum_pixy_definition': K('bounded', 'shape [3,4], integer-valued cells', ['Spectrum::sum', 'Scs::segregating_sites', 'PiXY::from_spectrum']),
     'k_project_individuals_no_wrap': K('complete', 'none: all usize values of one and two --project-individuals entries (the map/collect loop runs at most twice, unwinding assertion on)', ['Project::shape (site reader builder)']),
+    'k_cli_fill_mapping': K('complete', 'none: all four Fill variants', ['impl From<Fill> for f64 (cli/src/fold.rs)']),
+    'k_cli_statistic_dispatch_1d': K('bounded', 'one concrete [5] table; binomial stubbed by its table', ['Statistic::calculate (cli/src/stat.rs): Theta, Pi, S, Sum']),
+    'k_cli_statistic_dispatch_d': K('bounded', 'one concrete [4] table; sqrt / powi / binomial stubbed identically on both sides (wiring only)', ['Statistic::calculate: DTajima, DFuLi']),
+    'k_cli_statistic_dispatch_2d_counts': K('bounded', 'one concrete [3,3] table', ['Statistic::calculate: PiXY, King, R0, R1']),
+    'k_cli_statistic_dispatch_2d_normalised': K('bounded', 'one concrete [2,3] table (Fst is NaN on it: only its wiring, not its normalisation, is visible)', ['Statistic::calculate: F2, Fst', 'Spectrum::into_normalized']),
+    'k_cli_statistic_dispatch_3d': K('bounded', 'one concrete [2,2,2] table', ['Statistic::calculate: F3', 'Spectrum::into_normalized']),
+    'k_cli_statistic_dispatch_4d': K('bounded', 'one concrete [2,2,2,2] table', ['Statistic::calculate: F4', 'Spectrum::into_normalized']),
     'k_stat_theta_pi_definition': K('bounded', 'count spectra with 3, 4, 5 chromosomes, one concrete table each, tolerance 1e-9; utils::binomial stubbed by its table', ['Theta<Watterson>::from_spectrum', 'Theta<Tajima>::from_spectrum', 'Estimator::estimate_unchecked', 'utils::harmonic']),
     'k_stat_f2_fst_definition': K('bounded', 'one normalised 3x4 table and its transpose, tolerance 1e-9; f64::powi stubbed by repeated multiplication', ['F2::from_sfs', 'Fst::from_sfs', 'FrequenciesIter::next', 'Spectrum::into_normalized']),
     'k_stat_f3_definition': K('bounded', 'one normalised 2x3x3 table, tolerance 1e-9; Array::sum stubbed by its contract, f64::powi by repeated multiplication', ['F3::from_sfs', 'F2::from_sfs', 'Spectrum::marginalize', 'FrequenciesIter::next']),
@@ -158,19 +165,20 @@ REGISTRY = {
         'level': 'proof',
         'verus': ['v_indexsum'],
         'verus_pairs': {'v_indexsum': ['k_fold_1x3', 'k_fold_3x1x1x2']},
-        'kani_quick': FOLD_QUICK,
+        'kani_quick': FOLD_QUICK + ['k_cli_fill_mapping'],
         'kani_thorough': FOLD_THOROUGH,
         'assumptions': [A_FLOATSUM, A_BIN, 'Shape::elements (iterator product) is assumed in V-indexsum and checked by K-index on concrete shapes',
                         "REWRITE in V-indexsum: `n /= v` (v: &usize) is verified as `n /= *v` (core's forward_ref_op_assign impl)"],
-        'not_decided': ['Fill -> f64 mapping and I/O of `sfs fold` (bin crate)'],
+        'not_decided': ['I/O of `sfs fold` (bin crate; the Fill -> f64 mapping is decided by k_cli_fill_mapping)'],
     },
     'C06': {
         'title': 'statistics equal their definitions on genotypes and the published estimators',
         'level': 'model_checking',
-        'kani_quick': ['k_stat_king_r0_r1_definition', 'k_stat_s_sum_pixy_definition', 'k_stat_theta_pi_definition'],
-        'kani_thorough': ['k_stat_f2_fst_definition', 'k_stat_f3_definition', 'k_stat_f4_definition'],
+        'kani_quick': ['k_stat_king_r0_r1_definition', 'k_stat_s_sum_pixy_definition', 'k_stat_theta_pi_definition', 'k_cli_statistic_dispatch_1d'],
+        'kani_thorough': ['k_stat_f2_fst_definition', 'k_stat_f3_definition', 'k_stat_f4_definition', 'k_cli_statistic_dispatch_d', 'k_cli_statistic_dispatch_2d_counts',
+                          'k_cli_statistic_dispatch_2d_normalised', 'k_cli_statistic_dispatch_3d', 'k_cli_statistic_dispatch_4d'],
         'assumptions': [A_PMF, A_FLOATSUM, A_BIN, 'f64::powi(x, 2) = x * x (stub in the f2/Fst/f3 harnesses: CBMC\'s powi model is not exact)'],
-        'not_decided': ['f2, f3, f4, Fst, Watterson, pi beyond one concrete table per harness (symbolic f64 cells do not finish; BOUNDED stand-ins with tolerance 1e-9 only)', 'Tajima D, Fu-Li D (sqrt, binomial through exp/ln): only totality (C17) and independence of the monomorphic cells (C14)', 'genotype-level reading of all 14 (composition with create)'],
+        'not_decided': ['f2, f3, f4, Fst, Watterson, pi beyond one concrete table per harness (symbolic f64 cells do not finish; BOUNDED stand-ins with tolerance 1e-9 only)', 'Tajima D, Fu-Li D (sqrt, binomial through exp/ln): only totality (C17) and independence of the monomorphic cells (C14)', 'genotype-level reading of all 14 (composition with create)', 'Stat::run / stat Runner (precision pairing, printing): bin crate I/O; only Statistic::calculate is under harness'],
     },
     'C07': {
         'title': 'spectrum files round-trip through text and npy; the tool reads what it writes',
